@@ -174,6 +174,28 @@ def run(ctx):
                 ("shim.specialize_curve", lambda c: [enc_arr(c["rows"]), enc_f(c["a"]), enc_f(c["b"])], rows_spec),
                 ("hazmat.specialize_curve", lambda c: [enc_arr(c["rows"]), enc_f(c["a"]), enc_f(c["b"])], rows_spec)],
                coq_case_spec, HEADER, "chk_specialize", judge=judge_spec, nontrivial=nontriv)
+    # junction shared bit-for-bit on arbitrary doubles (the theorem C04_junction_is_one_expression is about the Python
+    # construction; the compiled generic path is only reachable this way)
+    from framework import sweep
+    import random as _r
+    jr = _r.Random("c04-junction-%s" % ctx.seed)
+    jc = []
+    for n in list(range(1, 33)) * (2 if ctx.quick() else 20):
+        jc.append({"n": n, "rows": [[Fraction(jr.uniform(-3, 3)) for _ in range(n + 1)] for _ in range(jr.randint(1, 3))]})
+
+    def judge_junction(c, op, cfg, raw):
+        from common import dec_res
+        if "exc" in raw:
+            return "raised %s" % raw["exc"]
+        left, right = dec_res(raw["ok"])
+        for i in range(len(c["rows"])):
+            if left[i][-1] != right[i][0]:
+                return "degree %d: junction point not shared bit-for-bit (row %d): %s vs %s" % (c["n"], i, float(left[i][-1]).hex(), float(right[i][0]).hex())
+            if left[i][0] != c["rows"][i][0] or right[i][-1] != c["rows"][i][-1]:
+                return "degree %d: end points of the halves are not the end points of the curve bit-for-bit" % c["n"]
+        return None
+    sweep(ctx, "junction_bitwise_on_random_doubles", jc,
+          [("Curve.subdivide", lambda c: [enc_arr(c["rows"])]), ("shim.subdivide_nodes", lambda c: [enc_arr(c["rows"])])], judge_junction)
     return finish(ctx, "theorems are about the Gallina model of curve_helpers.{subdivide_nodes, make_subdivision_matrices, "
                   "specialize_curve}; tables are regenerated from the source; the Fortran variants are tied by exact-input "
                   "correspondence only; rounding bound (5(n+1)u, a-priori) is validated, not proved",
